@@ -211,7 +211,10 @@ wantsLoop:
 		for q.Len() > 0 {
 			cd := q.Remove(q.Front()).(commitDepth)
 			sums = append(sums, cd.sum)
-			if _, ok := alreadySeenCommits[string(cd.sum)]; ok {
+			// a commit listed for an earlier want is not listed again, but it may be nearer to
+			// this want than to the earlier one: its table is still selected within the depth
+			_, seen := alreadySeenCommits[string(cd.sum)]
+			if seen && (f.depth == 0 || cd.depth >= f.depth) {
 				continue
 			}
 			if _, ok := f.commons[string(cd.sum)]; ok {
@@ -221,11 +224,13 @@ wantsLoop:
 			if err != nil {
 				return err
 			}
-			commitList.PushFront(c)
+			if !seen {
+				commitList.PushFront(c)
+			}
 			if f.depth == 0 || cd.depth < f.depth {
 				tableList.PushFront(c.Table)
 			}
-			if cont != nil && cont(want, c) {
+			if !seen && cont != nil && cont(want, c) {
 				continue wantsLoop
 			}
 			for _, p := range c.Parents {
